@@ -15,6 +15,15 @@ class BuildError(Exception):
 class Workspace:
     def __init__(self):
         root = os.environ.get('TMPDIR') or '/var/tmp'
+        # scratch of runs that were killed before their atexit handler ran (older than 3 hours)
+        try:
+            import time
+            for n in os.listdir(root):
+                p_ = os.path.join(root, n)
+                if n.startswith('imath_verif_') and os.path.isdir(p_) and time.time() - os.path.getmtime(p_) > 3 * 3600:
+                    shutil.rmtree(p_, ignore_errors=True)
+        except OSError:
+            pass
         self.dir = tempfile.mkdtemp(prefix='imath_verif_', dir=root)
         atexit.register(self.cleanup)
         self.cfg = None
